@@ -16,6 +16,8 @@ structure DState where
   rejFull  : Nat := 0
   gets     : Nat := 0
   hists    : Nat := 0
+  cputs    : Nat := 0
+  cputSwapped : Nat := 0
 
 def outStr : Out → String
   | .accepted => "ok" | .invalid => "invalid" | .order => "order" | .full => "full"
@@ -24,7 +26,7 @@ def setAssoc (k v : Nat) : List (Nat × Nat) → List (Nat × Nat)
   | [] => [(k, v)]
   | (k', v') :: r => if k' = k then (k, v) :: r else (k', v') :: setAssoc k v r
 
-def step (d : DState) (l : Line) : DState × List Verdict :=
+def step1 (d : DState) (l : Line) : DState × List Verdict :=
   if l.op == "reset" then
     match getNat l.args "limit" with
     | some n => ({ d with m := init n, dead := false, maxLim := n, implLast := [], hists := d.hists + 1 }, [])
@@ -85,7 +87,28 @@ def step (d : DState) (l : Line) : DState × List Verdict :=
     | _, _, _ => (d, [.badline "entries fields"])
   else (d, [.badline "unknown op"])
 
+/-- The `x.`-prefixed fields of a line, prefix removed. -/
+def subKV (pre : String) (kv : List (String × String)) : List (String × String) :=
+  kv.filterMap fun (k, v) => if k.startsWith pre then some ((k.drop pre.length).toString, v) else none
+
+/-- `cput`: two overlapping updates. They have no real-time order, so the history is accepted when one of the two
+sequential orders explains both results on the model; otherwise the verdicts of the first order are reported. -/
+def step (d : DState) (l : Line) : DState × List Verdict :=
+  if l.op == "cput" then
+    if d.dead then (d, []) else
+    let a : Line := { op := "put", args := subKV "a." l.args, obs := subKV "a." l.obs }
+    let b : Line := { op := "put", args := subKV "b." l.args, obs := subKV "b." l.obs }
+    let run (x y : Line) : DState × List Verdict :=
+      let (d1, v1) := step1 d x
+      if !v1.isEmpty then (d1, v1) else step1 d1 y
+    let (dab, vab) := run a b
+    if vab.isEmpty then ({ dab with cputs := dab.cputs + 1 }, []) else
+    let (dba, vba) := run b a
+    if vba.isEmpty then ({ dba with cputs := dba.cputs + 1, cputSwapped := dba.cputSwapped + 1 }, [])
+    else ({ dab with cputs := dab.cputs + 1 }, vab)
+  else step1 d l
+
 def stats (d : DState) : String :=
-  s!"hists={d.hists} puts={d.puts} accepted={d.accepted} invalid={d.rejInvalid} order={d.rejOrder} full={d.rejFull} gets={d.gets}"
+  s!"hists={d.hists} puts={d.puts} accepted={d.accepted} invalid={d.rejInvalid} order={d.rejOrder} full={d.rejFull} gets={d.gets} cputs={d.cputs} cput_swapped={d.cputSwapped}"
 
 end Hostd.Drive.Registry
